@@ -341,3 +341,19 @@ Theorem c12_reuse_flag_never_reset_refuted :
   hclean o h d_old /\
   hfinal o h d_old (Tmp 1) = Some [1] /\ d_old (Tmp 1) = None /\ hfinal o h d_old (File 0) = Some [1; 2; 3].
 Proof. exact flag_never_reset_refuted. Qed.
+
+(** * A history of [BSP.save] calls
+    Every call builds a fresh writer object; the rebuild phase of a call may raise before the writer is entered
+    ([pre = false]: nothing at all happens, the next call finds the directory as it was).  Every call of every history
+    is a good single use relative to the directory it started in, and temp files do not accumulate. *)
+Theorem c12_save_history : forall x, proto_ok x = true -> forall h d, shist_good x h d.
+Proof. exact save_history_good. Qed.
+Theorem c12_save_history_no_temp_accumulates : forall x, proto_ok x = true -> forall h d, shclean x h d ->
+  (forall i, shfinal x h d (Tmp i) = d (Tmp i)) /\
+  (forall k, (forall u, In u h -> dest (snd (fst u)) <> k) -> shfinal x h d (File k) = d (File k)).
+Proof. exact save_history_no_temp_accumulates. Qed.
+Theorem c12_save_history_example :
+  let x := obj_proto obj_fixed in
+  let h := [(true, sc_a, repeat false 7); (false, sc_a, []); (true, sc_raise, repeat false 6)] in
+  shclean x h d_old /\ shfinal x h d_old (File 0) = Some [1; 2; 3] /\ shfinal x h d_old (Tmp 1) = d_old (Tmp 1).
+Proof. exact save_history_example. Qed.
